@@ -1113,7 +1113,20 @@ pub fn after_session(ctx: &Rc<RunCtx>, si: usize, outcome: SessionOutcome) {
             ctx.violate(&props, "init-failed", format!("init returned Err({})", kind), format!("session {}: {}", si, msg));
         }
         SessionOutcome::Hung(what) => {
-            let _ = what;
+            if what == "watchdog" {
+                // not a concurrent session's own detector: a call of the harness itself (an operation, a
+                // query, close) never returned and nothing else could run
+                let mut props: Vec<&str> = vec!["C08", "C13"];
+                match base_phase(&plan, si) {
+                    Some("fault") => props.push("C11"),
+                    Some("cancel") => props.push("C14"),
+                    Some("crash") => props.push("C06"),
+                    _ => {}
+                }
+                world.probe("session_watchdog_fired");
+                ctx.violate_post_mortem(&props, "deadlock", "a storage call never returned and nothing else was runnable: the storage is deadlocked", format!("session {}; {}; channel capacity {}", si, ctx.last_step_note.borrow(), plan.sched.channel_cap));
+                ctx.aborted.set(true);
+            }
         }
         _ => {}
     }
